@@ -94,6 +94,16 @@ INNER_HELPERS = {
     class Inner:
         v: Optional[str] = field(default=None, metadata={"type": "Element"})
         n: Optional[int] = field(default=None, metadata={"type": "Attribute"})
+        leaf: Optional["Root.Inner.Leaf"] = field(default=None, metadata={"type": "Element"})
+
+        @dataclass
+        class Leaf:
+            x: Optional[str] = field(default=None, metadata={"type": "Attribute"})
+            shade: Optional["Root.Inner.Leaf.Shade"] = field(default=None, metadata={"type": "Attribute"})
+
+            class Shade(Enum):
+                DARK = "dark"
+                LIGHT = "light"
 ''',
     "InnerColor": '''
     class InnerColor(Enum):
@@ -117,8 +127,8 @@ SCALARS: "OrderedDict[str, dict]" = OrderedDict([
     ("Decimal", dict(ann="Decimal", vals=["Decimal('1.50')", "Decimal('1E+5')", "Decimal('-0')"])),
     ("QName", dict(ann="QName", vals=["QName('a')", "QName('{urn:q}b')", "QName('{urn:m}c')"], tags={"qname"})),
     ("XmlDate", dict(ann="XmlDate", vals=["XmlDate(2020, 1, 2)", "XmlDate(-1, 12, 31, 0)"])),
-    ("XmlDateTime", dict(ann="XmlDateTime", vals=["XmlDateTime(2020, 1, 2, 3, 4, 5)", "XmlDateTime(2020, 2, 29, 24, 0, 0, 0, -300)", "XmlDateTime(1, 1, 1, 0, 0, 0, 1, 0)"])),
-    ("XmlTime", dict(ann="XmlTime", vals=["XmlTime(1, 2, 3)", "XmlTime(23, 59, 59, 999999999, 840)"])),
+    ("XmlDateTime", dict(ann="XmlDateTime", vals=["XmlDateTime(2020, 1, 2, 3, 4, 5)", "XmlDateTime(2020, 2, 29, 24, 0, 0, 0, -300)", "XmlDateTime(1, 1, 1, 0, 0, 0, 1, 0)", "XmlDateTime(2002, 1, 1, 12, 30, 0)"])),
+    ("XmlTime", dict(ann="XmlTime", vals=["XmlTime(1, 2, 3)", "XmlTime(23, 59, 59, 999999999, 840)", "XmlTime(12, 0, 0)"])),
     ("XmlDuration", dict(ann="XmlDuration", vals=["XmlDuration('P1D')", "XmlDuration('-PT0.5S')"])),
     ("XmlPeriod", dict(ann="XmlPeriod", vals=["XmlPeriod('2001')", "XmlPeriod('--02-29Z')"])),
     ("bytes16", dict(ann="bytes", vals=["b'hi'", "b''", "b'\\x00\\xff'"], format="base16")),
@@ -390,7 +400,7 @@ def gen_field(ch: Chooser, i: int, frozen: bool, cats: list[str], scalar_keys: l
             vals = ["AnyChild(any=[AnyElement(qname='x', text='t')])", "AnyChild()", "AnyChild(any=[AnyElement(qname='x', text='t'), AnyElement(qname='{urn:w}y', text='', attributes={'k': 'v'})], k='z')"]
             tags.add("generic-child")
         elif cls == "Inner":
-            vals = ["Root.Inner(v='a')", "Root.Inner()", "Root.Inner(v='', n=5)"]
+            vals = ["Root.Inner(v='a')", "Root.Inner()", "Root.Inner(v='', n=5)", "Root.Inner(leaf=Root.Inner.Leaf(x='q', shade=Root.Inner.Leaf.Shade.DARK))"]
             tags.add("inner")
         else:
             vals = ["TextChild(value='a')", "TextChild()", "TextChild(value=' b ', lang='en')"]
@@ -514,7 +524,16 @@ def gen_field(ch: Chooser, i: int, frozen: bool, cats: list[str], scalar_keys: l
     if cat == "special":
         # constructs that matter to the code serializer: fields excluded from __init__ and default factories
         # that return something non-empty
-        variant = ch.pick(["list-default-factory", "init-false-attr", "init-false-postinit", "dict-default-factory"], f"{name}.variant")
+        variant = ch.pick(["list-default-factory", "init-false-attr", "init-false-postinit", "dict-default-factory", "ignore-value", "ignore-required", "ignore-mapping"], f"{name}.variant")
+        if variant == "ignore-value":
+            # fields the binding layer ignores are still part of the instance
+            return FieldSpec(name, "Optional[int]", "None", {"type": "'Ignore'"}, ["5", "None", "0"], cat, [], {"special", "ignore"})
+        if variant == "ignore-required":
+            return FieldSpec(name, "str", None, {"type": "'Ignore'"}, ["'kept'", "''"], cat, [], {"special", "ignore", "required"})
+        if variant == "ignore-mapping":
+            # a mapping whose keys are not strings (key types need imports of their own)
+            return FieldSpec(name, "Dict[object, object]", "factory:dict", {"type": "'Ignore'"},
+                             ["{QName('{urn:q}k'): 1}", "{}", "{Decimal('1.5'): 'x', Color.RED: XmlDate(2020, 1, 2)}", "{XmlTime(12, 0, 0): [QName('a')]}"], cat, ["Color"], {"special", "ignore"})
         if variant == "list-default-factory":
             return FieldSpec(name, "List[str]", "factory:lambda: ['d1', 'd2']", {"type": "'Element'"}, ["['a']", "[]", "['d1', 'd2']", "['d1']"], cat, [], {"special", "list"})
         if variant == "dict-default-factory":
